@@ -57,6 +57,11 @@ def readReplies : Nat → Str → Option (List Bool × Str)
       | none => none
     | none => none
 
+/-- the requested directories were all made (and given their attributes when the request asks for some): every
+os-level step of every directory went through -/
+def dirsDone (withOpts : Bool) (steps : List DirStep) : Bool :=
+  steps.all fun s => s.mkdir.isNone && (!withOpts || s.attrs.isNone)
+
 /-- the six lines `__ebd_ipc_cmd` writes for a request -/
 def requestLines (nr : Str × Request) : List Str :=
   [nr.1, nr.2.nonfatal, nr.2.cwd, nr.2.phase, nr.2.options, nr.2.args]
